@@ -34,6 +34,17 @@ def handle (st : DState) (kw : String) (toks : List Nat) : DState × String :=
       (st, match Mapper.new t with
         | .error e => panicLine e
         | .ok m => "ok " ++ show_ (listToks (m.minimal s)))
+  | "import" =>
+    match run (pair (list custom) (pair importCfg afile)) toks with
+    | none => (st, "bad-case")
+    | some (t, (cfg, lock)) =>
+      (st, match Mapper.new t with
+        | .error e => panicLine e
+        | .ok lm =>
+          match importOne lm cfg with
+          | .error e => panicLine e
+          | .ok .refused => "refused"
+          | .ok (.ok f) => "ok " ++ show_ (afileToks (updateFreshness f lock)))
   | "world" =>
     match run world toks with
     | none => (st, "bad-case")
